@@ -838,4 +838,481 @@ theorem top_trunc (prec : Nat) (hp : 1 ≤ prec) (d : List Nat) (hl : Limbs d) (
     rw [t5, this]; ring
 
 
+/-! ### addition -/
+
+theorem addv_spec (x y : List Nat) (hx : Limbs x) (hy : Limbs y) (hlen : y.length ≤ x.length) :
+    val (addv x y).1 + B ^ x.length * (addv x y).2 = val x + val y ∧ (addv x y).1.length = x.length ∧
+    Limbs (addv x y).1 ∧ (addv x y).2 ≤ 1 := by
+  unfold addv
+  simp only
+  have h1 := val_lt x hx
+  have h2 : val y < B ^ x.length := lt_of_lt_of_le (val_lt y hy) (Nat.pow_le_pow_right B_pos hlen)
+  refine ⟨?_, toLimbs_length _ _, Limbs_toLimbs _ _, ?_⟩
+  · rw [val_toLimbs]; exact Nat.mod_add_div _ _
+  · have : val x + val y < 2 * B ^ x.length := by omega
+    have := (Nat.div_lt_iff_lt_mul (Bpow_pos x.length)).mpr this
+    omega
+
+theorem val_replicate_zero (k : Nat) : val (List.replicate k 0) = 0 := by
+  induction k with
+  | zero => rfl
+  | succ k ih => simp [List.replicate_succ, ih]
+
+theorem Limbs_replicate_zero (k : Nat) : Limbs (List.replicate k 0) := by
+  intro x hx; rw [List.mem_replicate] at hx; rw [hx.2]; exact B_pos
+
+theorem addLimbs_spec (up vp : List Nat) (ed : Nat) (hlu : Limbs up) (hlv : Limbs vp) :
+    (addLimbs up vp ed).1.length = max up.length (vp.length + ed) ∧ Limbs (addLimbs up vp ed).1 ∧
+    (addLimbs up vp ed).2 ≤ 1 ∧
+    val (addLimbs up vp ed).1 + B ^ (max up.length (vp.length + ed)) * (addLimbs up vp ed).2 =
+      val up * B ^ (max up.length (vp.length + ed) - up.length) +
+      val vp * B ^ (max up.length (vp.length + ed) - ed - vp.length) := by
+  unfold addLimbs
+  simp only
+  by_cases h1 : up.length > ed
+  · rw [if_pos h1]
+    by_cases h2 : vp.length + ed ≤ up.length
+    · rw [if_pos h2]
+      have hm : max up.length (vp.length + ed) = up.length := by omega
+      rw [hm]
+      obtain ⟨s1, s2, s3, s4⟩ := addv_spec (up.drop (up.length - ed - vp.length)) vp (Limbs_drop hlu _) hlv
+        (by rw [List.length_drop]; omega)
+      generalize addv (up.drop (up.length - ed - vp.length)) vp = r at *
+      obtain ⟨hi, cy⟩ := r
+      simp only at s1 s2 s3 s4 ⊢
+      have hdl : (up.drop (up.length - ed - vp.length)).length = ed + vp.length := by rw [List.length_drop]; omega
+      have htl : (up.take (up.length - ed - vp.length)).length = up.length - ed - vp.length := by
+        rw [List.length_take]; omega
+      refine ⟨by rw [List.length_append, htl, s2, hdl]; omega, Limbs_append.mpr ⟨Limbs_take hlu _, s3⟩, s4, ?_⟩
+      rw [val_append, htl]
+      have hsplit := val_take_drop up (up.length - ed - vp.length) (by omega)
+      rw [hdl] at s1
+      have e1 : up.length = (up.length - ed - vp.length) + (ed + vp.length) := by omega
+      have e2 : B ^ up.length = B ^ (up.length - ed - vp.length) * B ^ (ed + vp.length) := by rw [← pow_add, ← e1]
+      rw [Nat.sub_self, pow_zero, mul_one, e2, hsplit]
+      have h := congrArg (fun t => B ^ (up.length - ed - vp.length) * t) s1
+      simp only [mul_add] at h
+      linarith
+    · rw [if_neg h2]
+      have hm : max up.length (vp.length + ed) = vp.length + ed := by omega
+      rw [hm]
+      obtain ⟨s1, s2, s3, s4⟩ := addv_spec up (vp.drop (vp.length + ed - up.length)) hlu (Limbs_drop hlv _)
+        (by rw [List.length_drop]; omega)
+      generalize addv up (vp.drop (vp.length + ed - up.length)) = r at *
+      obtain ⟨hi, cy⟩ := r
+      simp only at s1 s2 s3 s4 ⊢
+      have htl : (vp.take (vp.length + ed - up.length)).length = vp.length + ed - up.length := by
+        rw [List.length_take]; omega
+      refine ⟨by rw [List.length_append, htl, s2]; omega, Limbs_append.mpr ⟨Limbs_take hlv _, s3⟩, s4, ?_⟩
+      rw [val_append, htl]
+      have hsplit := val_take_drop vp (vp.length + ed - up.length) (by omega)
+      have e2 : B ^ (vp.length + ed) = B ^ (vp.length + ed - up.length) * B ^ up.length := by
+        rw [← pow_add]; congr 1; omega
+      rw [show vp.length + ed - ed - vp.length = 0 by omega, pow_zero, mul_one, e2, hsplit]
+      have h := congrArg (fun t => B ^ (vp.length + ed - up.length) * t) s1
+      simp only [mul_add] at h
+      linarith
+  · rw [if_neg h1]
+    have hm : max up.length (vp.length + ed) = vp.length + ed := by omega
+    rw [hm]
+    refine ⟨by simp; omega, Limbs_append.mpr ⟨Limbs_append.mpr ⟨hlv, Limbs_replicate_zero _⟩, hlu⟩, by omega, ?_⟩
+    rw [val_append, val_append, val_replicate_zero]
+    simp only [List.length_append, List.length_replicate, mul_zero, add_zero]
+    rw [show vp.length + ed - ed - vp.length = 0 by omega, pow_zero, mul_one,
+      show vp.length + (ed - up.length) = vp.length + ed - up.length by omega]
+    ring
+
+
+
+/-- value of the limbs `d` placed with exponent `e` -/
+def qv (d : List Nat) (e : ℤ) : ℚ := (val d : ℚ) * (B : ℚ) ^ (e - (d.length : ℤ))
+
+theorem qv_nonneg (d : List Nat) (e : ℤ) : 0 ≤ qv d e :=
+  mul_nonneg (by positivity) (le_of_lt (zpow_pos Bq_pos _))
+
+theorem qv_lt (d : List Nat) (e : ℤ) (hl : Limbs d) : qv d e < (B : ℚ) ^ e := by
+  unfold qv
+  have h1 : (val d : ℚ) < (B : ℚ) ^ d.length := by exact_mod_cast val_lt d hl
+  have h2 : (B : ℚ) ^ e = (B : ℚ) ^ d.length * (B : ℚ) ^ (e - (d.length : ℤ)) := by
+    rw [← zpow_natCast, ← zpow_add₀ Bq_ne]; congr 1; ring
+  rw [h2]; exact mul_lt_mul_of_pos_right h1 (zpow_pos Bq_pos _)
+
+theorem qv_ge (d : List Nat) (e : ℤ) (hne : d ≠ []) (ht : d.getLast? ≠ some 0) : (B : ℚ) ^ (e - 1) ≤ qv d e := by
+  unfold qv
+  have h1 : ((B ^ (d.length - 1) : ℕ) : ℚ) ≤ (val d : ℚ) := by exact_mod_cast val_ge_of_top d hne ht
+  have hn : 0 < d.length := List.length_pos_of_ne_nil hne
+  have h2 : (B : ℚ) ^ (e - 1) = ((B ^ (d.length - 1) : ℕ) : ℚ) * (B : ℚ) ^ (e - (d.length : ℤ)) := by
+    push_cast; rw [← zpow_natCast, ← zpow_add₀ Bq_ne]; congr 1
+    have : ((d.length - 1 : ℕ) : ℤ) = (d.length : ℤ) - 1 := by omega
+    rw [this]; ring
+  rw [h2]; exact mul_le_mul_of_nonneg_right h1 (le_of_lt (zpow_pos Bq_pos _))
+
+/-- dropping the k low limbs -/
+theorem qv_split (d : List Nat) (e : ℤ) (k : ℕ) (hk : k ≤ d.length) :
+    qv d e = (val (d.take k) : ℚ) * (B : ℚ) ^ (e - (d.length : ℤ)) + qv (d.drop k) e := by
+  unfold qv
+  have h := val_take_drop d k hk
+  rw [h, List.length_drop]; push_cast
+  have : (B : ℚ) ^ k * (B : ℚ) ^ (e - (d.length : ℤ)) = (B : ℚ) ^ (e - ((d.length - k : ℕ) : ℤ)) := by
+    rw [← zpow_natCast, ← zpow_add₀ Bq_ne]; congr 1; omega
+  rw [← this]; ring
+
+theorem qv_top (n : ℕ) (d : List Nat) (e : ℤ) :
+    qv d e = (val (d.take (d.length - n)) : ℚ) * (B : ℚ) ^ (e - (d.length : ℤ)) + qv (top n d) e := by
+  unfold top; exact qv_split d e _ (Nat.sub_le _ _)
+
+/-- the result limbs with an optional carry limb on top -/
+theorem qv_carry (tp : List Nat) (cy : ℕ) (e : ℤ) (hcy : cy ≤ 1) :
+    qv (if cy ≠ 0 then tp ++ [cy] else tp) (e + cy) =
+      ((val tp + B ^ tp.length * cy : ℕ) : ℚ) * (B : ℚ) ^ (e - (tp.length : ℤ)) := by
+  unfold qv
+  rcases Nat.eq_zero_or_pos cy with h | h
+  · subst h; simp
+  · have : cy = 1 := by omega
+    subst this
+    simp only [ne_eq, one_ne_zero, not_false_eq_true, if_true, val_append, List.length_append, List.length_cons,
+      List.length_nil]
+    congr 1
+    · simp
+
+
+theorem val_take_drop_any (l : List Nat) (k : Nat) : val l = val (l.take k) + B ^ k * val (l.drop k) := by
+  rcases le_or_gt k l.length with h | h
+  · exact val_take_drop l k h
+  · rw [List.take_of_length_le (le_of_lt h), List.drop_eq_nil_of_le (le_of_lt h)]; simp
+
+theorem selV_eq (prec : Nat) (vd : List Nat) (ediff : ℤ) :
+    selV prec vd ediff = vd.drop ((vd.length : ℤ) + ediff - prec).toNat := by
+  unfold selV
+  by_cases h : (vd.length : ℤ) + ediff > prec
+  · rw [if_pos h]
+  · rw [if_neg h]
+    have : ((vd.length : ℤ) + ediff - prec).toNat = 0 := by omega
+    rw [this]; rfl
+
+theorem zpow_le_zpow_B {a b : ℤ} (h : a ≤ b) : (B : ℚ) ^ a ≤ (B : ℚ) ^ b :=
+  zpow_le_zpow_right₀ (by exact_mod_cast (le_of_lt one_lt_B)) h
+
+/-- low-part bound: lo < B^k limbs dropped below a number with n limbs and exponent e -/
+theorem low_lt (lo k n : ℕ) (e : ℤ) (h : lo < B ^ k) :
+    (lo : ℚ) * (B : ℚ) ^ (e - (n : ℤ)) < (B : ℚ) ^ (e - (n : ℤ) + (k : ℤ)) := by
+  rw [zpow_add₀ Bq_ne, zpow_natCast, mul_comm ((B : ℚ) ^ (e - (n : ℤ)))]
+  exact mul_lt_mul_of_pos_right (by exact_mod_cast h) (zpow_pos Bq_pos _)
+
+theorem addMag_spec (prec : ℕ) (hp : 1 ≤ prec) (ud vd : List Nat) (uexp vexp : ℤ)
+    (hlu : Limbs ud) (hnu : ud ≠ []) (htu : ud.getLast? ≠ some 0)
+    (hlv : Limbs vd) (hnv : vd ≠ []) (hexp : vexp ≤ uexp) :
+    Limbs (addMag prec ud uexp vd vexp).1 ∧ (addMag prec ud uexp vd vexp).1 ≠ [] ∧
+    (addMag prec ud uexp vd vexp).1.getLast? ≠ some 0 ∧ (addMag prec ud uexp vd vexp).1.length ≤ prec + 1 ∧
+    ∃ (lou lov kv : ℕ) (V' : ℕ),
+      qv (addMag prec ud uexp vd vexp).1 (addMag prec ud uexp vd vexp).2 =
+        qv ud uexp + qv vd vexp - (lou : ℚ) * (B : ℚ) ^ (uexp - (ud.length : ℤ))
+          - (lov : ℚ) * (B : ℚ) ^ (vexp - (vd.length : ℤ)) ∧
+      (lou : ℚ) * (B : ℚ) ^ (uexp - (ud.length : ℤ)) < (B : ℚ) ^ (uexp - (prec : ℤ)) ∧
+      (lov : ℚ) * (B : ℚ) ^ (vexp - (vd.length : ℤ)) < (B : ℚ) ^ (uexp - (prec : ℤ)) ∧
+      val ud = lou + B ^ (ud.length - prec) * val (top prec ud) ∧ lou < B ^ (ud.length - prec) ∧
+      val vd = lov + B ^ kv * V' ∧ lov < B ^ kv ∧ kv = ((vd.length : ℤ) + (uexp - vexp) - prec).toNat := by
+  obtain ⟨t1, t2, t3, t4, t5, t6, _⟩ := top_facts prec (by omega) ud hlu hnu htu
+  have hnul : 0 < ud.length := List.length_pos_of_ne_nil hnu
+  have hnvl : 0 < vd.length := List.length_pos_of_ne_nil hnv
+  set kv := ((vd.length : ℤ) + (uexp - vexp) - prec).toNat with hkv
+  have hV := val_take_drop_any vd kv
+  have hlov := val_take_lt hlv kv
+  have hlouq : ((val (ud.take (ud.length - prec)) : ℕ) : ℚ) * (B : ℚ) ^ (uexp - (ud.length : ℤ)) < (B : ℚ) ^ (uexp - (prec : ℤ)) := by
+    rcases Nat.eq_zero_or_pos (ud.length - prec) with h | h
+    · rw [h]; simp; exact zpow_pos Bq_pos _
+    · have := low_lt _ _ ud.length uexp t6
+      have e : uexp - (ud.length : ℤ) + ((ud.length - prec : ℕ) : ℤ) = uexp - (prec : ℤ) := by omega
+      rwa [e] at this
+  unfold addMag
+  simp only [selV_eq, ← hkv]
+  by_cases hbig : uexp - vexp ≥ (prec : ℤ)
+  · -- V entirely below the precision window
+    rw [if_pos hbig]
+    refine ⟨t1, t2, t3, by rw [t4]; omega, val (ud.take (ud.length - prec)), val vd, kv, 0, ?_, hlouq, ?_, t5, t6, ?_, ?_, rfl⟩
+    · have := qv_top prec ud uexp
+      rw [this]; unfold qv; ring
+    · have h1 : (val vd : ℚ) * (B : ℚ) ^ (vexp - (vd.length : ℤ)) < (B : ℚ) ^ vexp := qv_lt vd vexp hlv
+      exact lt_of_lt_of_le h1 (zpow_le_zpow_B (by omega))
+    · simp
+    · exact lt_of_lt_of_le (val_lt vd hlv) (Nat.pow_le_pow_right B_pos (by omega))
+  · rw [if_neg hbig]
+    have hkvlt : kv < vd.length := by omega
+    obtain ⟨ed, hed⟩ : ∃ ed : ℕ, uexp - vexp = (ed : ℤ) := ⟨(uexp - vexp).toNat, by omega⟩
+    have hedt : (uexp - vexp).toNat = ed := by omega
+    rw [hedt]
+    have hvl : (vd.drop kv).length = vd.length - kv := List.length_drop
+    have hvsed : (vd.drop kv).length + ed ≤ prec := by rw [hvl]; omega
+    obtain ⟨s1, s2, s3, s4⟩ := addLimbs_spec (top prec ud) (vd.drop kv) ed t1 (Limbs_drop hlv _)
+    generalize addLimbs (top prec ud) (vd.drop kv) ed = r at *
+    obtain ⟨tp, cy⟩ := r
+    simp only at s1 s2 s3 s4 ⊢
+    set rs := max (top prec ud).length ((vd.drop kv).length + ed) with hrs
+    have hapos : 0 < (top prec ud).length := List.length_pos_of_ne_nil t2
+    have hrsle : rs ≤ prec := by rw [hrs, t4]; omega
+    have htot : B ^ (rs - 1) ≤ val tp + B ^ rs * cy := by
+      rw [s4]
+      have h1 := val_ge_of_top _ t2 t3
+      have h2 : B ^ (rs - 1) = B ^ ((top prec ud).length - 1) * B ^ (rs - (top prec ud).length) := by
+        rw [← pow_add]; congr 1; omega
+      rw [h2]
+      have := Nat.mul_le_mul_right (B ^ (rs - (top prec ud).length)) h1
+      omega
+    refine ⟨?_, ?_, ?_, ?_, val (ud.take (ud.length - prec)), val (vd.take kv), kv, val (vd.drop kv), ?_, hlouq, ?_, t5, t6, hV, hlov, rfl⟩
+    · by_cases hc : cy ≠ 0
+      · rw [if_pos hc]; exact Limbs_append.mpr ⟨s2, Limbs_cons.mpr ⟨by have := B_ge_two; omega, Limbs_nil⟩⟩
+      · rw [if_neg hc]; exact s2
+    · by_cases hc : cy ≠ 0
+      · rw [if_pos hc]; simp
+      · rw [if_neg hc]; intro h; rw [h] at s1; simp at s1; omega
+    · by_cases hc : cy ≠ 0
+      · rw [if_pos hc]; simp; exact hc
+      · rw [if_neg hc]
+        have hc0 : cy = 0 := by omega
+        rw [hc0] at htot
+        apply top_ne_zero_of_val_ge tp s2
+        · intro h; rw [h] at s1; simp at s1; omega
+        · rw [s1]; simpa using htot
+    · by_cases hc : cy ≠ 0
+      · rw [if_pos hc]; simp; omega
+      · rw [if_neg hc]; omega
+    · rw [qv_carry tp cy uexp s3, s1, s4]
+      rw [qv_top prec ud uexp, qv_split vd vexp kv (le_of_lt hkvlt)]
+      unfold qv
+      push_cast
+      have e1 : (B : ℚ) ^ (rs - (top prec ud).length) * (B : ℚ) ^ (uexp - (rs : ℤ)) = (B : ℚ) ^ (uexp - ((top prec ud).length : ℤ)) := by
+        rw [← zpow_natCast, ← zpow_add₀ Bq_ne]; congr 1; omega
+      have e2 : (B : ℚ) ^ (rs - ed - (vd.drop kv).length) * (B : ℚ) ^ (uexp - (rs : ℤ)) = (B : ℚ) ^ (vexp - ((vd.drop kv).length : ℤ)) := by
+        rw [← zpow_natCast, ← zpow_add₀ Bq_ne]; congr 1; omega
+      rw [← e1, ← e2]; ring
+    · rcases Nat.eq_zero_or_pos kv with h | h
+      · rw [h]; simp; exact zpow_pos Bq_pos _
+      · have := low_lt _ _ vd.length vexp hlov
+        have e : vexp - (vd.length : ℤ) + (kv : ℤ) = uexp - (prec : ℤ) := by omega
+        rwa [e] at this
+
+
+
+theorem toQ_qv (u : F) : toQ u = sg u * qv u.d u.exp := by rw [toQ_sg]; rfl
+
+theorem eps_eq (prec : ℕ) : eps prec = 4 / (B : ℚ) ^ (prec - 1) := by
+  unfold eps
+  rw [zpow_sub₀ (by norm_num : (2 : ℚ) ≠ 0), zpow_natCast]
+  have : ((B ^ (prec - 1) : ℕ) : ℚ) = (2 : ℚ) ^ (PREC_TO_BITS prec) := by exact_mod_cast Bpow_eq_two_pow prec
+  push_cast at this; rw [this]; norm_num
+
+/-- the final inequality of the addition error analysis -/
+theorem add_err_q (prec : ℕ) (hp : 1 ≤ prec) (E r eu ev : ℚ) (e : ℤ)
+    (hr : r = E - eu - ev) (h0u : 0 ≤ eu) (h0v : 0 ≤ ev)
+    (hu : eu < (B : ℚ) ^ (e - (prec : ℤ))) (hv : ev < (B : ℚ) ^ (e - (prec : ℤ)))
+    (hE : (B : ℚ) ^ (e - 1) ≤ E) :
+    |r - E| < eps prec * |E| := by
+  have hEpos : 0 < E := lt_of_lt_of_le (zpow_pos Bq_pos _) hE
+  have hQ : (0 : ℚ) < (B : ℚ) ^ (prec - 1) := pow_pos Bq_pos _
+  rw [eps_eq, abs_of_pos hEpos, hr, show E - eu - ev - E = -(eu + ev) by ring, abs_neg, abs_of_nonneg (by linarith),
+    div_mul_eq_mul_div, lt_div_iff₀ hQ]
+  have h1 : (B : ℚ) ^ (e - (prec : ℤ)) * (B : ℚ) ^ (prec - 1) = (B : ℚ) ^ (e - 1) := by
+    rw [← zpow_natCast, ← zpow_add₀ Bq_ne]; congr 1; omega
+  nlinarith
+
+theorem addSame_spec (prec : ℕ) (hp : 1 ≤ prec) (u v : F) (hu : OpWF u) (hv : OpWF v)
+    (hu0 : u.size ≠ 0) (hv0 : v.size ≠ 0) (hs : (u.size < 0) ↔ (v.size < 0)) :
+    WF (addSame prec u v) ∧
+    |toQ (addSame prec u v) - (toQ u + toQ v)| < eps prec * |toQ u + toQ v| := by
+  have hnu : u.d ≠ [] := fun h => hu0 (by have := hu.2.1; rw [h] at this; simp at this; omega)
+  have hnv : v.d ≠ [] := fun h => hv0 (by have := hv.2.1; rw [h] at this; simp at this; omega)
+  have hsg : sg v = sg u := by
+    unfold sg
+    by_cases h : u.size < 0
+    · rw [if_pos h, if_pos (hs.mp h)]
+    · rw [if_neg h, if_neg (fun h' => h (hs.mpr h'))]
+  unfold addSame
+  simp only
+  by_cases hswap : u.exp < v.exp
+  · rw [if_pos hswap]
+    obtain ⟨w1, w2, w3, w4, lou, lov, kv, V', q1, q2, q3, _⟩ :=
+      addMag_spec prec hp v.d u.d v.exp u.exp hv.1 hnv hv.2.2.1 hu.1 hnu (le_of_lt hswap)
+    generalize addMag prec v.d v.exp u.d u.exp = r at *
+    obtain ⟨rd, e⟩ := r
+    simp only at w1 w2 w3 w4 q1 ⊢
+    refine ⟨WF_mk_neg w1 w3 w4 (fun h => absurd h w2), ?_⟩
+    rw [toQ_mk_neg, toQ_qv u, toQ_qv v, hsg]
+    rw [show (if u.size < 0 then (-1 : ℚ) else 1) = sg u from rfl, mul_assoc, ← mul_add, ← mul_sub, abs_mul, abs_mul]
+    have hsa : |sg u| = 1 := by rcases sg_cases u with h | h <;> rw [h] <;> simp
+    rw [hsa, one_mul, one_mul]
+    have := add_err_q prec hp (qv u.d u.exp + qv v.d v.exp) (qv rd e) _ _ v.exp
+      (by rw [q1]; ring)
+      (mul_nonneg (by positivity) (le_of_lt (zpow_pos Bq_pos _)))
+      (mul_nonneg (by positivity) (le_of_lt (zpow_pos Bq_pos _))) q2 q3
+      (le_trans (qv_ge v.d v.exp hnv hv.2.2.1) (by linarith [qv_nonneg u.d u.exp]))
+    exact this
+  · rw [if_neg hswap]
+    obtain ⟨w1, w2, w3, w4, lou, lov, kv, V', q1, q2, q3, _⟩ :=
+      addMag_spec prec hp u.d v.d u.exp v.exp hu.1 hnu hu.2.2.1 hv.1 hnv (by omega)
+    generalize addMag prec u.d u.exp v.d v.exp = r at *
+    obtain ⟨rd, e⟩ := r
+    simp only at w1 w2 w3 w4 q1 ⊢
+    refine ⟨WF_mk_neg w1 w3 w4 (fun h => absurd h w2), ?_⟩
+    rw [toQ_mk_neg, toQ_qv u, toQ_qv v, hsg]
+    rw [show (if u.size < 0 then (-1 : ℚ) else 1) = sg u from rfl, mul_assoc, ← mul_add, ← mul_sub, abs_mul, abs_mul]
+    have hsa : |sg u| = 1 := by rcases sg_cases u with h | h <;> rw [h] <;> simp
+    rw [hsa, one_mul, one_mul]
+    have := add_err_q prec hp (qv u.d u.exp + qv v.d v.exp) (qv rd e) _ _ u.exp
+      (by rw [q1])
+      (mul_nonneg (by positivity) (le_of_lt (zpow_pos Bq_pos _)))
+      (mul_nonneg (by positivity) (le_of_lt (zpow_pos Bq_pos _))) q2 q3
+      (le_trans (qv_ge u.d u.exp hnu hu.2.2.1) (by linarith [qv_nonneg v.d v.exp]))
+    exact this
+
+
+
+theorem fitsN_mul_Bpow {N p : ℕ} (c : ℕ) (h : FitsN N p) : FitsN (N * B ^ c) p := by
+  obtain ⟨m, j, hm, hp⟩ := h
+  refine ⟨m, j + 64 * c, ?_, hp⟩
+  rw [hm, pow_add, mul_assoc]; congr 2; unfold B; rw [← pow_mul]
+
+/-- if u (the operand with the larger exponent), and u + v both fit in p bits, then the limbs of v below the
+    precision window of u are zero -/
+theorem add_fits_dvd (U V nu nv prec : ℕ) (uexp vexp : ℤ) (hU : B ^ (nu - 1) ≤ U) (hnu : 1 ≤ nu) (hp : 1 ≤ prec)
+    (fU : FitsN U (64 * (prec - 1)))
+    (fE : Fits ((U : ℚ) * (B : ℚ) ^ (uexp - (nu : ℤ)) + (V : ℚ) * (B : ℚ) ^ (vexp - (nv : ℤ))) (64 * (prec - 1))) :
+    B ^ ((nv : ℤ) + (uexp - vexp) - (prec : ℤ)).toNat ∣ V := by
+  rcases Nat.eq_zero_or_pos ((nv : ℤ) + (uexp - vexp) - (prec : ℤ)).toNat with h0 | h0
+  · rw [h0]; simp
+  set m : ℤ := min (uexp - (nu : ℤ)) (vexp - (nv : ℤ)) with hm
+  obtain ⟨cu, hcu⟩ : ∃ cu : ℕ, uexp - (nu : ℤ) = m + cu := ⟨(uexp - (nu : ℤ) - m).toNat, by omega⟩
+  obtain ⟨cv, hcv⟩ : ∃ cv : ℕ, vexp - (nv : ℤ) = m + cv := ⟨(vexp - (nv : ℤ) - m).toNat, by omega⟩
+  have hE : (U : ℚ) * (B : ℚ) ^ (uexp - (nu : ℤ)) + (V : ℚ) * (B : ℚ) ^ (vexp - (nv : ℤ))
+      = 1 * ((U * B ^ cu + V * B ^ cv : ℕ) : ℚ) * (B : ℚ) ^ m := by
+    rw [hcu, hcv, zpow_add₀ Bq_ne, zpow_add₀ Bq_ne, zpow_natCast, zpow_natCast]; push_cast; ring
+  rw [hE] at fE
+  have fEn := fitsN_of_fits (Or.inl rfl) _ _ _ fE
+  have hUn : B ^ (nu + cu - 1) ≤ U * B ^ cu := by
+    have : nu + cu - 1 = (nu - 1) + cu := by omega
+    rw [this, pow_add]; exact Nat.mul_le_mul_right _ hU
+  have d1 : B ^ (nu + cu - prec) ∣ U * B ^ cu + V * B ^ cv :=
+    fitsN_dvd fEn (le_trans hUn (Nat.le_add_right _ _)) hp
+  have d2 : B ^ (nu + cu - prec) ∣ U * B ^ cu := fitsN_dvd (fitsN_mul_Bpow cu fU) hUn hp
+  have d3 : B ^ (nu + cu - prec) ∣ V * B ^ cv := (Nat.dvd_add_right d2).mp d1
+  have e : nu + cu - prec = ((nv : ℤ) + (uexp - vexp) - (prec : ℤ)).toNat + cv := by omega
+  rw [e, pow_add] at d3
+  exact Nat.dvd_of_mul_dvd_mul_right (Bpow_pos cv) d3
+
+
+theorem fits_sg {σ x : ℚ} {p : ℕ} (hσ : σ = 1 ∨ σ = -1) (h : Fits (σ * x) p) : Fits x p := by
+  obtain ⟨m, k, hm, hp⟩ := h
+  rcases hσ with h1 | h1 <;> rw [h1] at hm
+  · exact ⟨m, k, by linarith, hp⟩
+  · exact ⟨-m, k, by push_cast; linarith, by rwa [abs_neg]⟩
+
+theorem fitsN_of_toQ {u : F} {p : ℕ} (h : Fits (toQ u) p) : FitsN (val u.d) p := by
+  rw [toQ_sg, ← mul_assoc] at h; exact fitsN_of_fits (sg_cases u) _ _ _ h
+
+theorem addSame_exact (prec : ℕ) (hp : 1 ≤ prec) (u v : F) (hu : OpWF u) (hv : OpWF v)
+    (hu0 : u.size ≠ 0) (hv0 : v.size ≠ 0) (hs : (u.size < 0) ↔ (v.size < 0))
+    (fu : Fits (toQ u) (PREC_TO_BITS prec)) (fv : Fits (toQ v) (PREC_TO_BITS prec))
+    (fe : Fits (toQ u + toQ v) (PREC_TO_BITS prec)) :
+    toQ (addSame prec u v) = toQ u + toQ v := by
+  have hnu : u.d ≠ [] := fun h => hu0 (by have := hu.2.1; rw [h] at this; simp at this; omega)
+  have hnv : v.d ≠ [] := fun h => hv0 (by have := hv.2.1; rw [h] at this; simp at this; omega)
+  have hsg : sg v = sg u := by
+    unfold sg
+    by_cases h : u.size < 0
+    · rw [if_pos h, if_pos (hs.mp h)]
+    · rw [if_neg h, if_neg (fun h' => h (hs.mpr h'))]
+  have hpb : PREC_TO_BITS prec = 64 * (prec - 1) := by unfold PREC_TO_BITS; omega
+  rw [hpb] at fu fv fe
+  have fu' := fitsN_of_toQ fu
+  have fv' := fitsN_of_toQ fv
+  rw [toQ_qv u, toQ_qv v, hsg, ← mul_add] at fe
+  have fe' := fits_sg (sg_cases u) fe
+  unfold qv at fe'
+  have hnul : 1 ≤ u.d.length := List.length_pos_of_ne_nil hnu
+  have hnvl : 1 ≤ v.d.length := List.length_pos_of_ne_nil hnv
+  unfold addSame
+  simp only
+  by_cases hswap : u.exp < v.exp
+  · rw [if_pos hswap]
+    obtain ⟨_, _, _, _, lou, lov, kv, V', q1, _, _, q4, q5, q6, q7, q8⟩ :=
+      addMag_spec prec hp v.d u.d v.exp u.exp hv.1 hnv hv.2.2.1 hu.1 hnu (le_of_lt hswap)
+    generalize addMag prec v.d v.exp u.d u.exp = r at *
+    obtain ⟨rd, e⟩ := r
+    simp only at q1 ⊢
+    have l1 : lou = 0 := low_zero_of_dvd q4 q5 (fitsN_dvd fv' (val_ge_of_top v.d hnv hv.2.2.1) hp)
+    have l2 : lov = 0 := by
+      apply low_zero_of_dvd q6 q7
+      rw [q8]
+      exact add_fits_dvd _ _ _ _ prec v.exp u.exp (val_ge_of_top v.d hnv hv.2.2.1) hnvl hp fv' (by rw [add_comm]; exact fe')
+    rw [toQ_mk_neg, toQ_qv u, toQ_qv v, hsg, show (if u.size < 0 then (-1 : ℚ) else 1) = sg u from rfl, mul_assoc,
+      show (val rd : ℚ) * (B : ℚ) ^ (e - (rd.length : ℤ)) = qv rd e from rfl, q1, l1, l2]
+    push_cast; ring
+  · rw [if_neg hswap]
+    obtain ⟨_, _, _, _, lou, lov, kv, V', q1, _, _, q4, q5, q6, q7, q8⟩ :=
+      addMag_spec prec hp u.d v.d u.exp v.exp hu.1 hnu hu.2.2.1 hv.1 hnv (by omega)
+    generalize addMag prec u.d u.exp v.d v.exp = r at *
+    obtain ⟨rd, e⟩ := r
+    simp only at q1 ⊢
+    have l1 : lou = 0 := low_zero_of_dvd q4 q5 (fitsN_dvd fu' (val_ge_of_top u.d hnu hu.2.2.1) hp)
+    have l2 : lov = 0 := by
+      apply low_zero_of_dvd q6 q7
+      rw [q8]
+      exact add_fits_dvd _ _ _ _ prec u.exp v.exp (val_ge_of_top u.d hnu hu.2.2.1) hnul hp fu' fe'
+    rw [toQ_mk_neg, toQ_qv u, toQ_qv v, hsg, show (if u.size < 0 then (-1 : ℚ) else 1) = sg u from rfl, mul_assoc,
+      show (val rd : ℚ) * (B : ℚ) ^ (e - (rd.length : ℤ)) = qv rd e from rfl, q1, l1, l2]
+    push_cast; ring
+
+
+
+/-- mpf_set (any operand length): format rules, error bound, exactness -/
+theorem set_spec (prec : ℕ) (hp : 1 ≤ prec) (u : F) (hu : OpWF u) :
+    WF (set prec u) ∧
+    (u.size ≠ 0 → |toQ (set prec u) - toQ u| < eps prec * |toQ u|) ∧
+    (Fits (toQ u) (PREC_TO_BITS prec) → toQ (set prec u) = toQ u) := by
+  unfold set
+  by_cases h0 : u.size = 0
+  · have hd := hu.d_nil h0
+    simp only [hd, top, List.length_nil, List.drop_nil]
+    refine ⟨?_, fun h => absurd h0 h, fun _ => by simp [toQ, hd]⟩
+    have he := hu.2.2.2 h0
+    rw [he]
+    exact WF_mk Limbs_nil (by simp) (by simp) (fun _ => rfl)
+  · have hne : u.d ≠ [] := fun h => h0 (by have := hu.2.1; rw [h] at this; simp at this; omega)
+    obtain ⟨t1, t2, t3, t4, t5, t6, t7⟩ := top_trunc prec hp _ hu.1 hne hu.2.2.1
+    have hσ : (if u.size ≥ 0 then (1 : ℚ) else -1) = 1 ∨ (if u.size ≥ 0 then (1 : ℚ) else -1) = -1 := by
+      by_cases h : u.size ≥ 0 <;> simp [h]
+    have hval : toQ ⟨prec, if u.size ≥ 0 then ((top (prec + 1) u.d).length : Int) else -((top (prec + 1) u.d).length : Int),
+        u.exp, top (prec + 1) u.d⟩ =
+        (if u.size ≥ 0 then (1 : ℚ) else -1) * ((val (top (prec + 1) u.d) * B ^ (u.d.length - (prec + 1)) : ℕ) : ℚ)
+          * (B : ℚ) ^ (u.exp - (u.d.length : ℤ)) := by
+      rw [toQ_mk, t4]
+      have : u.exp - ((min (prec + 1) u.d.length : ℕ) : ℤ) = ((u.d.length - (prec + 1) : ℕ) : ℤ) + (u.exp - (u.d.length : ℤ)) := by omega
+      rw [this, zpow_add₀ Bq_ne, zpow_natCast]; push_cast; ring
+    refine ⟨WF_mk t1 t3 (by rw [t4]; omega) (fun h => absurd h t2), ?_, ?_⟩
+    · intro _
+      rw [hval, toQ_def']
+      exact err_of_nat _ hσ _ _ _ (zpow_pos Bq_pos _) prec t5 t6
+    · intro hf
+      have hpb : PREC_TO_BITS prec = 64 * (prec - 1) := by unfold PREC_TO_BITS; omega
+      rw [hpb] at hf
+      have := t7 (fitsN_dvd (fitsN_of_toQ hf) (val_ge_of_top u.d hne hu.2.2.1) hp)
+      rw [hval, this, toQ_def']
+
+theorem neg_eq_set (prec : ℕ) (u : F) : neg prec false u = set prec {u with size := -u.size} := rfl
+
+theorem toQ_neg_size (u : F) (hu : OpWF u) : toQ {u with size := -u.size} = - toQ u := by
+  unfold toQ; dsimp only
+  rcases lt_trichotomy u.size 0 with h | h | h
+  · rw [if_neg (by omega), if_pos h]; ring
+  · simp [hu.d_nil h]
+  · rw [if_pos (by omega), if_neg (by omega)]; ring
+
+theorem OpWF_neg_size (u : F) (hu : OpWF u) : OpWF {u with size := -u.size} := by
+  obtain ⟨h1, h2, h3, h4⟩ := hu
+  exact ⟨h1, by simpa using h2, h3, fun h => h4 (by simpa using h)⟩
+
+theorem fits_neg {x : ℚ} {p : ℕ} (h : Fits x p) : Fits (-x) p := by
+  obtain ⟨m, k, hm, hp⟩ := h
+  exact ⟨-m, k, by push_cast; rw [hm]; ring, by rwa [abs_neg]⟩
+
+
 end Mpir.Mpf
